@@ -11,6 +11,13 @@ size_t g_map_ops;
 #define PRIV(x) (x)
 #endif
 
+#define SLOT (this->segmentedPackets)
+#define SV   (this->segmentedPackets.value)
+#define DEC_M   ((const uint8_t *)data + g_next_off)       /* first message of the frame that was not delivered as an unsegmented packet */
+#define DEC_REM (size - g_next_off)
+/* the continuing segment M is accepted: the slot is still the entry slot (no unsegmented message of this frame closed it) and open, and M is its next segment */
+#define DEC_ACC (g_delivered == g_reasm && g0_present != 0 && SP_ACCEPT(g0_segtype, g0_ver, g0_mtype, g0_seq, B(data, 0), B(data, 4), BE16(data, 6), DEC_M, DEC_REM))
+
 /* ---- decoder monitor (C02 C04 C05 C06 C17 C18) ---- */
 const uint8_t *g_frame;      /* the frame being decoded (assigned at function entry) */
 size_t g_size;
